@@ -2,6 +2,7 @@ import Ivg.Lemmas.Options
 import Ivg.Lemmas.RenderHist
 import Ivg.Gen.Tie.Globals
 import Ivg.Gen.Tie.ParamWrites
+import Ivg.Gen.Tie.OptionBodies
 import Ivg.Gen.Tie.Code.Decoder10
 import Ivg.Obligations
 /-!
@@ -201,4 +202,6 @@ end Ivg.Props.C14
   -- regenerated code (translator) = model, for all inputs and option lists: decode.Decode WITH options (option loop in order, sanitising loop) = Dec.decode opts
   Ivg.Gen.Tie.optFn_applyOption,
   Ivg.Gen.Tie.decode_opts_code_tie,
-  Ivg.Gen.Tie.decode_Decode_opts_code_tie]
+  Ivg.Gen.Tie.decode_Decode_opts_code_tie,
+  -- the two option constructors return exactly the model's two options (regenerated fact)
+  Ivg.Gen.Tie.optionBodies_tie]
